@@ -18,5 +18,5 @@ var guards = map[string]guardSpec{
 		fields: []string{"blocks", "blockAtHeight", "pruneHeight", "pendingFetch"}},
 	"ViewStates": {rel: "protocol", typ: "ViewStates", mutex: "mut", fields: []string{"highQC", "highTC", "view", "committedBlock"}},
 	"VotingMachine": {rel: "protocol/votingmachine", typ: "VotingMachine", mutex: "mut", fields: []string{"verifiedVotes"}},
-	"Generator":     {rel: "twins", typ: "Generator", mutex: "mut", fields: []string{"remaining", "indices", "done"}},
+	"Generator":     {rel: "twins", typ: "Generator", mutex: "mut", fields: []string{"remaining", "indices"}, optional: []string{"done"}},
 }
